@@ -175,6 +175,12 @@ impl AsmParser {
         })
     }
 
+    /// Set the line of the (next) statement. Used when a single statement is parsed out of context.
+    pub fn at_line(mut self, line: u16) -> Self {
+        self.line = line;
+        self
+    }
+
     fn get_span(&self, span: Span) -> &str {
         &self.src[span.offs()..span.end()]
     }
